@@ -7,7 +7,7 @@ from vmon import core, snap
 from vmon.core import REC, SKIP
 from models import tiers as M
 from workloads import gen
-from checks.common import num, call, ents_of, desc, make_tier
+from checks.common import num, call, ents_of, desc, make_tier, receiver_changed
 
 PROP = "C14"
 NSHARDS = {"quick": 8, "thorough": 16}
@@ -152,6 +152,10 @@ def _dj_post(ctx):
     classes = list(classes) + ["C14:ref-is-point-tier" if sr["t"] == "P" else "C14:ref-is-interval-tier"]
     sig = (mon, sr["t"], D, tuple(classes), len(s["entries"]))
     case = {"call": "dejitter", "tier": s, "ref": sr, "D": D}
+    _why = receiver_changed(ctx, s)
+    if _why:
+        REC.violation(PROP, "dejitter.interval" if s["t"] == "I" else "dejitter.point", "dejitter", case, _why, ("receiver-changed", "dejitter"), {"op": "dejitter", "receiver_changed": True})
+        return
     if ok:
         REC.held(mon, sig if s["entries"] else None, classes, case)
     else:
@@ -239,6 +243,10 @@ def _morph_post(ctx):
     s, st, sel = ctx.pre
     ents, tents = ents_of(s), ents_of(st)
     case = {"call": "morph", "tier": s, "target": st, "selected": sel}
+    _why = receiver_changed(ctx, s)
+    if _why:
+        REC.violation(PROP, "morph", "morph", case, _why, ("receiver-changed", "morph"), {"op": "morph", "receiver_changed": True})
+        return
     classes = []
     if sel is not None:
         classes.append("C14:morph:filter")
@@ -313,6 +321,11 @@ def install():
     core.attach(praatio_scripts, "alignBoundariesAcrossTiers", "align", _al_pre, _al_post, method=False)
 
 
+import re as _re
+
+_re_ab = _re.compile("[ab]")
+
+
 def jitter_tier(rng, refs, D, kind, dyadic, tiny=False):
     """A tier whose timestamps sit at chosen distances from reference timestamps; tiny: every timestamp misses its reference
     timestamp by rounding-noise-sized amounts only (1 ulp .. 1e-10 relative) or is far out of range."""
@@ -329,7 +342,7 @@ def jitter_tier(rng, refs, D, kind, dyadic, tiny=False):
         elif c < 0.45:
             v = r + sign * D  # exactly at D (exact on the dyadic grid, within the band otherwise)
         elif c < 0.55:
-            v = r + sign * D * rng.choice((1.01, 1.25, 1.5))
+            v = r + sign * D * rng.choice((1.01, 1.25, 1.5, 1 + 1e-11, 1 + 1e-10, 1 + 5e-10, 1 + 3e-9))
         elif c < 0.8 and len(refs) > 1:
             i = rng.randrange(len(refs) - 1)
             v = (refs[i] + refs[i + 1]) / 2  # equidistant between two candidates
@@ -428,7 +441,9 @@ def _workload(tier, rng, shard, nshards):
         lo, hi = gen.span_for(rng, a, 5.0, "I")
         A = make_tier("I", "A", a, lo, hi)
         B = make_tier("I", "B", b, 0.0, max(5.0, len(b) + 1.0))
-        filt = rng.choice([None, None, lambda lab: lab in ("a", "b"), lambda lab: lab == "c", lambda lab: False])
+        # filter functions need not return a bool: a regular-expression match object, a count, the label itself are common
+        filt = rng.choice([None, None, lambda lab: lab in ("a", "b"), lambda lab: lab == "c", lambda lab: False,
+                           _re_ab.search, lambda lab: lab.count("a") + lab.count("c"), lambda lab: lab if lab != "b" else "", lambda lab: [lab] if lab == "a" else []])
         call(A.morph, B, filt)
         if k % 50 == 0:
             E = make_tier("I", "E", [], 0.0, 1.0)
@@ -450,7 +465,7 @@ def replay(v, work):
             f = None
             if sel is not None:
                 chosen = {e[2] for e, s_ in zip(ents, sel) if s_}
-                f = lambda lab: lab in chosen
+                f = lambda lab: [lab] if lab in chosen else []  # truthy / falsy, deliberately not a bool (the monitored call may have used either)
             call(snap.build_tier(c["tier"]).morph, snap.build_tier(c["target"]), f)
 
 
